@@ -5,6 +5,6 @@ d=$1; shift
 wt=$(mktemp -d /tmp/mw-XXXXXX); rmdir $wt
 git -C /repo worktree add -q --detach $wt HEAD && git -C $wt apply $d/patch.diff || { echo "apply failed"; exit 2; }
 for id in "$@"; do
-  VERIF_REPO=$wt ./check $id --tier ${TIER:-quick} 2>&1 | grep -E "signature|^$id tier|HARNESS" | cut -c1-200 | head -8
+  VERIF_OUT=/tmp/mw-out VERIF_REPO=$wt ./check $id --tier ${TIER:-quick} 2>&1 | grep -E "signature|^$id tier|HARNESS" | cut -c1-200 | head -8
 done
 git -C /repo worktree remove --force $wt
